@@ -601,6 +601,21 @@ pub fn wide_lists(thorough: bool, seed: usize) -> Vec<Vec<Vec<u8>>> {
     v.push((0..260).map(|i| if i % 2 == 0 { b"ab".to_vec() } else { b"b".to_vec() }).collect());
     v.push((0..12).map(|k| b"abcdefghijkl"[k..].to_vec()).collect());
     v.push((0..12).rev().map(|k| b"abcdefghijkl"[k..].to_vec()).collect());
+    // more than 128 (and all 256) byte classes together with suffix structure: short patterns ending in
+    // low / high bytes that are suffixes of prefixes of longer ones (inherited matches in every class)
+    for nsingle in [130usize, 200, 256] {
+        let mut l: Vec<Vec<u8>> = (0..nsingle).map(|b| vec![(255 - b) as u8]).collect();
+        l.push(vec![b'c', b'a', b'f', 0xC3, 0xA9]);
+        l.push(vec![0xC3, 0xA9, b'z']);
+        l.push(vec![b'f', 0xC3]);
+        l.push(vec![0x01, 0xFE, 0x02, 0xFF]);
+        l.push(vec![0xFE, 0x02]);
+        l.push(vec![0x02, 0xFF, 0x00]);
+        v.push(l);
+        let mut l2: Vec<Vec<u8>> = vec![vec![0xF0, 0x9F, 0x98, 0x80], vec![0x9F, 0x98], vec![0x98]];
+        l2.extend((0..nsingle).map(|b| vec![b as u8, (b as u8) ^ 0x55]));
+        v.push(l2);
+    }
     // >100 patterns (automatic kind selection switches away from the DFA)
     v.push((0..120u16).map(|i| vec![b'a' + (i % 26) as u8, b'a' + (i / 26) as u8, b'k']).collect());
     let mut rng = crate::gen::Rng(77 + seed as u64);
